@@ -292,9 +292,29 @@ type hwReq struct {
 	rec      *httptest.ResponseRecorder
 	panicked string
 	ch       chan []byte // its waiter channel while registered
+	slow     chan struct{} // a client that reads slowly: the response writer waits here before the first byte goes out
+	atWriter int32
 }
 
+// slowWriter stalls in front of the first WriteHeader / Write until the script lets the client read (`unslow`): whatever the
+// handler hands to the writer must still be the answer it decided on when the bytes finally leave
+type slowWriter struct {
+	http.ResponseWriter
+	r    *hwReq
+	once sync.Once
+}
+
+func (w *slowWriter) wait() {
+	w.once.Do(func() {
+		atomic.StoreInt32(&w.r.atWriter, 1)
+		<-w.r.slow
+	})
+}
+func (w *slowWriter) WriteHeader(c int)           { w.wait(); w.ResponseWriter.WriteHeader(c) }
+func (w *slowWriter) Write(b []byte) (int, error) { w.wait(); return w.ResponseWriter.Write(b) }
+
 type hwEnv struct {
+	nextSlow bool
 	h       *dhttp.DrandHandler
 	bh      *dhttp.BeaconHandler
 	fc      *hwClient
@@ -399,6 +419,12 @@ func (e *hwEnv) serve(path string) (*hwReq, string) {
 		return nil, "bad-url"
 	}
 	r := &hwReq{cancel: cancel, done: make(chan struct{}), rec: httptest.NewRecorder()}
+	var w http.ResponseWriter = r.rec
+	if e.nextSlow {
+		e.nextSlow = false
+		r.slow = make(chan struct{})
+		w = &slowWriter{ResponseWriter: r.rec, r: r}
+	}
 	go func() {
 		defer close(r.done)
 		defer func() {
@@ -406,7 +432,7 @@ func (e *hwEnv) serve(path string) (*hwReq, string) {
 				r.panicked = fmt.Sprint(p)
 			}
 		}()
-		e.h.GetHTTPHandler().ServeHTTP(r.rec, rq)
+		e.h.GetHTTPHandler().ServeHTTP(w, rq)
 	}()
 	return r, ""
 }
@@ -501,6 +527,9 @@ func (e *hwEnv) settleReleased() bool {
 			if isDone(r) {
 				return true
 			}
+			if r.slow != nil && atomic.LoadInt32(&r.atWriter) == 1 {
+				return true // released, its answer is waiting for the slow client
+			}
 			p, ok := e.bh.VerifTryPending()
 			return ok && r.ch != nil && inPending(p, r.ch)
 		}, hwWatchdog)
@@ -589,6 +618,28 @@ func (e *hwEnv) op(f []string) string {
 			return "refused"
 		}
 		return e.request(f[1], "/public/"+f[2])
+	case "reqslow": // like req, but the client reads slowly: nothing leaves the writer before `unslow <id>`
+		if r, err := strconv.ParseUint(f[2], 10, 64); err != nil || r == 0 {
+			return "refused"
+		}
+		e.nextSlow = true
+		out := e.request(f[1], "/public/"+f[2])
+		e.nextSlow = false
+		if r := e.reqs[f[1]]; r != nil && r.slow != nil && !isDone(r) && atomic.LoadInt32(&r.atWriter) == 1 {
+			return "writing"
+		}
+		return out
+	case "unslow":
+		r := e.reqs[f[1]]
+		if r == nil || r.slow == nil {
+			return "unknown"
+		}
+		select {
+		case <-r.slow:
+		default:
+			close(r.slow)
+		}
+		return "ok"
 	case "reqraw":
 		return e.request(f[1], f[2])
 	case "cancel":
@@ -621,6 +672,17 @@ func (e *hwEnv) op(f []string) string {
 		}
 		if isDone(r) {
 			return e.answer(r)
+		}
+		if r.slow != nil {
+			open := true
+			select {
+			case <-r.slow:
+				open = false
+			default:
+			}
+			if open && hwWait(func() bool { return atomic.LoadInt32(&r.atWriter) == 1 || isDone(r) }, 50*time.Millisecond) && !isDone(r) {
+				return "writing"
+			}
 		}
 		if e.holding {
 			select {
